@@ -36,10 +36,12 @@ func verifDecodeApk(out []byte) ([]apkSegment, bool) {
 	return segs, true
 }
 
-func Verif_C01_C_ApkModes()   { verifApkPayload(scen.Options{SymModes: true, Second: -1}) }
-func Verif_C01_C_ApkOwners()  { verifApkPayload(scen.Options{SymOwners: true, Second: 1}) }
-func Verif_C01_C_ApkTimes()   { verifApkPayload(scen.Options{SymTimes: true, Second: 3}) }
-func Verif_C01_C_ApkContent() { verifApkPayload(scen.Options{SymContent: true, SymDst: true, SymType: true, Second: -1}) }
+func Verif_C01_C_ApkModes()  { verifApkPayload(scen.Options{SymModes: true, Second: -1}) }
+func Verif_C01_C_ApkOwners() { verifApkPayload(scen.Options{SymOwners: true, Second: 1}) }
+func Verif_C01_C_ApkTimes()  { verifApkPayload(scen.Options{SymTimes: true, Second: 3}) }
+func Verif_C01_C_ApkContent() {
+	verifApkPayload(scen.Options{SymContent: true, SymDst: true, SymType: true, Second: -1})
+}
 
 func verifApkPayload(o scen.Options) {
 	sc := scen.Payload(o)
